@@ -16,8 +16,15 @@ res = {"dir": d, "demos": [os.path.basename(x) for x in demos]}
 W = tempfile.mkdtemp(prefix="seedwt.", dir="/tmp"); os.rmdir(W)
 try:
     rc, out = sh(f"git -C /repo worktree add -q --detach {W} HEAD"); assert rc == 0, out
-    rc, out = sh(f"git apply {patch}", cwd=W); res["applies"] = rc == 0
-    if rc != 0: res["apply_error"] = out[-400:]; raise SystemExit
+    rc, out = sh(f"git apply {patch}", cwd=W)
+    if rc != 0:
+        rc, out = sh(f"git apply --3way {patch}", cwd=W); res["applied_3way"] = rc == 0
+        sh("git reset -q", cwd=W)
+        if rc == 0:
+            _, res["rebased_patch"] = sh("git diff", cwd=W)
+            rb = os.path.join(d, "patch.rebased.diff"); open(rb, "w").write(res["rebased_patch"]); patch = rb
+    res["applies"] = rc == 0
+    if rc != 0: res["apply_error"] = out[-400:]; print(json.dumps(res, indent=1)); raise SystemExit
     rc, out = sh("go build ./...", cwd=W); res["builds"] = rc == 0
     rc, out = sh("go test -vet=off -count=1 ./...", cwd=W); res["suite_passes_with_change"] = rc == 0
     if rc != 0: res["suite_output"] = "\n".join(l for l in out.splitlines() if re.match(r"^(--- FAIL|FAIL|panic|ok)", l))[-600:]
